@@ -174,6 +174,20 @@ def run():
         inconclusive.append("no (state, slice) pair had a positive containment verdict: vacuous run")
     if stats["twins"] and stats["twins_sat"] == 0:
         inconclusive.append("vacuity twins: none of %d negative-verdict pairs had a witness" % stats["twins"])
+    # ---- set-algebra half at table level: per-slice masks / remainder tries cover every token of the slice
+    tstats = {}
+    try:
+        from . import slicer_tables
+        dumped, words = slicer_tables.dump(sd)
+        tstats, tv = slicer_tables.check_tables(dumped, words)
+        for v in tv:
+            # concrete confirmation on the dumped tables
+            viol.append(("slice-tables|%s" % v["what"].split(":")[0], dict(property=prop, counterexample=v,
+                         note="a token of the slice is neither OR-ed from an applied child's mask nor reachable in the trie that TokenizerSlice::apply walks in that case")))
+        if tstats.get("slice_nodes", 0) == 0:
+            inconclusive.append("slicer tables: nothing dumped")
+    except RuntimeError as ex:
+        inconclusive.append(str(ex)[:600])
     reported = 0
     seen = set()
     known_hits = []
@@ -195,9 +209,9 @@ def run():
                state_slice_pairs_with_positive_verdict=stats["pairs_true"], with_negative_verdict=stats["pairs_false"], lexeme_automaton_states=stats["states"],
                lexeme_automata_skipped_too_large=stats["skipped_big"], queries=stats["queries"], solver_s=round(stats["solver_s"], 2), vacuity_twins="%d/%d negative-verdict pairs have a witness string" % (stats["twins_sat"], stats["twins"]),
                functions_encoded=["earley/regexvec.rs subsume_possible / check_subsume (+ derivre is_contained_in_prefixes) — real verdicts per (state, slice)", "earley/lexerspec.rs add_extra_lexemes, to_regex_vec",
-                                  "earley/slicer.rs general_slices/json_slices (slice lists)", "json/compiler.rs string lexemes (maxLength/pattern/format/enum)"],
+                                  "earley/slicer.rs general_slices/json_slices (slice lists), TokenizerSlice::from_topo_node + TokTrie::filter (tables dumped natively)", "json/compiler.rs string lexemes (maxLength/pattern/format/enum)"],
                bounds=dict(string_bytes=L, budget=1000, max_states=500, slice_lists=len(SLICE_LISTS)), known_findings_reported=known_hits, inconclusive=inconclusive[:20])
-    assumptions = ["containment half only: the set algebra of TokenizerSlice::apply (which trie is walked after a child slice applied) takes a parser state and is outside the claim; masks are not compared bit for bit",
+    assumptions = ["containment half + table-level set algebra: for a synthetic multi-byte vocabulary (376 tokens) the masks and remainder tries precomputed by TokenizerSlice::from_topo_node are dumped from the real code and the solver shows, for a symbolic token id, that whichever children applied every token of the slice is covered by an applied child's mask or by the trie apply() walks; the control flow of apply() itself and bit-for-bit mask equality at run time take a parser state and are outside the claim",
                    "slices only ever stand for tokens: strings longer than the bound (longest token) are outside"]
     write_evidence(prop, "translation_validation", cov, tm.s(), reported, assumptions)
     if reported:
